@@ -337,6 +337,13 @@ func (r *dtRun) evalInstr(fr *dtFrame, v ssa.Value, depth int) absVal {
 	case *ssa.ChangeInterface:
 		return r.eval(fr, x.X)
 	case *ssa.MakeInterface:
+		switch x.X.Type().Underlying().(type) {
+		case *types.Basic, *types.Struct, *types.Array:
+			// a boxed non-pointer value is never a nil interface
+			if isErrorType(x.Type()) {
+				return absVal{K: avNonNil, Tag: "error"}
+			}
+		}
 		in := r.eval(fr, x.X)
 		if in.K == avNil {
 			// typed nil pointer in an interface is a non-nil interface; keep it simple: unknown
@@ -426,6 +433,9 @@ func (r *dtRun) evalInstr(fr *dtFrame, v ssa.Value, depth int) absVal {
 	case *ssa.Call:
 		return r.doCall(fr, x, depth)
 	case *ssa.TypeAssert:
+		if x.CommaOk {
+			return absVal{K: avTuple, Tuple: []absVal{{K: avNonNil, Tag: "asserted"}, {K: avAtom, Name: "is:" + types.TypeString(x.AssertedType, shortQual2)}}}
+		}
 		return absVal{}
 	case *ssa.Slice, *ssa.MakeSlice, *ssa.MakeMap, *ssa.MakeClosure:
 		return absVal{K: avNonNil}
